@@ -3,6 +3,7 @@ The generalised fragment check (C05 / C10 composites): `PlanCheck.checkTy` exten
   * skipped fields (`FieldPlan.skip`: goverter:ignore / ignoreMissing / ignoreUnexported — the field is not assigned),
   * struct nodes of update methods (`structc … isUpdate` with either flag),
   * zero-value guards (`ZeroCheck.check`: update:ignoreZeroValueField),
+  * mapped fields with arbitrary source paths (goverter:map: dotted paths through structs and nil-guarded pointers, `.`),
   * update methods at the top level (`Body.update srcIsPtr c`),
   * default constructors at the top level of a conversion method (`withCtor` / `ctorUpdate` around a constructor call).
 `Gv.Sound.checkProgU_sound` turns `true` into the hypotheses of `Gv.Sound.evalConv_onto`.
@@ -12,6 +13,35 @@ import Gv.Model.PlanCheck
 
 namespace Gv.PlanCheck
 open Gv Gv.Str Gv.Eval
+
+/-- one step of a field path: a pointer is dereferenced (under a nil guard) -/
+def derefTy (env : TEnv) (cur : Ty) : Ty × Bool :=
+  match under env cur with
+  | .ptr e => (e, true)
+  | _ => (cur, false)
+
+/-- the type of field `name` of the struct type `t` -/
+def fieldTyOf (env : TEnv) (t : Ty) (name : S) : Option Ty :=
+  match under env t with
+  | .struct fs => (fs.toList.find? (fun (x : FieldInfo × Ty) => x.1.name == name)).map (·.2)
+  | _ => none
+
+/-- the walk of a field path over TYPES (builder/struct.go mapField, `Gen.walkPath`): each step selects a field of a struct or
+of a pointer to a struct; result: the leaf type, per step whether a pointer is dereferenced (under a nil guard), and
+whether any step does -/
+def walkTy (env : TEnv) : Ty → List S → Option (Ty × List Bool × Bool)
+  | cur, [] => some (cur, [], false)
+  | cur, p :: rest =>
+    match fieldTyOf env (derefTy env cur).1 p with
+    | some ty =>
+      (match walkTy env ty rest with
+       | some (leaf, ds, g) => some (leaf, (derefTy env cur).2 :: ds, (derefTy env cur).2 || g)
+       | none => none)
+    | none => none
+
+/-- the type of the value handed to the field conversion: the leaf itself, or — behind a nil guard, for a non-pointer leaf —
+the temporary pointer to it -/
+def fieldArgTy (guarded leafIsPtr : Bool) (leaf : Ty) : Ty := if !guarded || leafIsPtr then leaf else .ptr leaf
 
 mutual
   def checkTyU (p : Program) : Conv → Ty → Ty → Bool
@@ -56,21 +86,25 @@ mutual
        | _, _ => false)
     | .structc plans _, s, t =>
       (match under p.conv.env s, under p.conv.env t with
-       | .struct sfs, .struct tfs =>
-         decide ((fieldNames tfs.toList).Nodup) && checkFieldsU p plans sfs.toList tfs.toList
+       | .struct _, .struct tfs =>
+         decide ((fieldNames tfs.toList).Nodup) && checkFieldsU p plans s tfs.toList
        | _, _ => false)
     | _, _, _ => false
-  /-- one plan per target field, in declaration order -/
-  def checkFieldsU (p : Program) : FieldPlans → List (FieldInfo × Ty) → List (FieldInfo × Ty) → Bool
+  /-- one plan per target field, in declaration order (`s` = the source struct type) -/
+  def checkFieldsU (p : Program) : FieldPlans → Ty → List (FieldInfo × Ty) → Bool
     | .nil, _, [] => true
-    | .cons f rest, sfs, (tf, tty) :: tfs => checkFieldU p f sfs tf tty && checkFieldsU p rest sfs tfs
+    | .cons f rest, s, (tf, tty) :: tfs => checkFieldU p f s tf tty && checkFieldsU p rest s tfs
     | _, _, _ => false
-  def checkFieldU (p : Program) : FieldPlan → List (FieldInfo × Ty) → FieldInfo → Ty → Bool
+  /-- a skipped field, or a field fed by a source path that type-checks from the source struct type: `derefs`, `guarded`,
+  `leafIsPtr` are what the walk over the types says, and the conversion goes from the handed value's type to the field type -/
+  def checkFieldU (p : Program) : FieldPlan → Ty → FieldInfo → Ty → Bool
     | .skip target, _, tf, _ => target == tf.name
-    | .mapped target path derefs guarded _ cv _, sfs, tf, tty =>
-      target == tf.name && path == [tf.name] && derefs == [false] && !guarded &&
-      (match sfs.find? (fun (x : FieldInfo × Ty) => x.1.name == tf.name) with
-       | some (_, sty) => checkTyU p cv sty tty
+    | .mapped target path derefs guarded leafIsPtr cv _, s, tf, tty =>
+      target == tf.name &&
+      (match walkTy p.conv.env s path with
+       | some (leaf, ds, g) =>
+         derefs == ds && guarded == g && leafIsPtr == (isPtr p.conv.env leaf).isSome &&
+         checkTyU p cv (fieldArgTy guarded leafIsPtr leaf) tty
        | none => false)
     | _, _, _, _ => false
 end
